@@ -213,12 +213,16 @@ package bip39
 //@ func NewMnemonic
 //@   let need = 4*length/3
 //@   let p0 = pos(cryptoRander)
+//@   let enough = p0 + need <= ravail(cryptoRander)
 //@   assigns RPos[cryptoRander]
 //@   ghost ws SSeq = fromEntropy_ws
+//@   ghost ent Bytes = bytes(entropy)
 //@   ensures [C09] reject: implies(!validCount(length), result == "" && is(err, ErrWordLen) && pos(cryptoRander) == p0)
-//@   ensures [C06] short: implies(validCount(length) && p0 + need > ravail(cryptoRander), result == "" && err != nil)
-//@   ensures [C06,C07,C02,C09] ok: implies(validCount(length) && p0 + need <= ravail(cryptoRander), err == nil && pos(cryptoRander) == p0 + need && result == join(ws, sepOf(lang)) && slen(ws) == length)
-//@   ensures [C06,C07,C02] words: implies(validCount(length) && p0 + need <= ravail(cryptoRander) && supported(lang), forall(j, 0, length, sat(ws, j) == lst(lang, digit(V(rseg(cryptoRander, p0, need)), length-1-j))))
+//@   ensures [C06] short: implies(validCount(length) && !enough, result == "" && err != nil)
+//@   ensures [C09,C02,C06] success: implies(validCount(length) && enough, err == nil)
+//@   ensures [C02,C06,C07] enc: implies(err == nil, validCount(length) && result == join(ws, sepOf(lang)) && slen(ws) == length && blen(ent) == need)
+//@   ensures [C02,C06,C07] words: implies(err == nil && supported(lang), forall(j, 0, length, sat(ws, j) == lst(lang, digit(V(ent), length-1-j))))
+//@   ensures [C06,C07] source: implies(err == nil, ent == rseg(cryptoRander, p0, need) && pos(cryptoRander) == p0 + need)
 //@   ensures [C09] nonempty: implies(err == nil, result != "")
 
 //@ func MnemonicToSeed
@@ -250,13 +254,12 @@ package bip39
 
 //@ func verifRoundTripRand
 //@   requires validCount(n) && supported(lg) && pos(cryptoRander) + 4*n/3 <= ravail(cryptoRander)
-//@   let src = rseg(cryptoRander, old(pos(cryptoRander)), 4*n/3)
 //@   assigns RPos[cryptoRander], mappings
 //@   ensures [C02] nopanic: true
-//@   split n in {12,15,18,21,24} at after call NewMnemonic#1 unfold acc(NewMnemonic_ws, lg, n, n); shr11(V(src), n)
+//@   split n in {12,15,18,21,24} at after call NewMnemonic#1 unfold acc(NewMnemonic_ws, lg, n, n); shr11(V(NewMnemonic_ent), n)
 //@   assert at after call NewMnemonic#1: tokens: split(nfkd(NewMnemonic_result), " ") == NewMnemonic_ws
-//@   assert at after call NewMnemonic#1: known: forall(j, 0, n, widx(lg, sat(NewMnemonic_ws, j)) == digit(V(src), n-1-j))
-//@   assert at after call NewMnemonic#1: value: acc(NewMnemonic_ws, lg, n, n) == V(src)
+//@   assert at after call NewMnemonic#1: known: forall(j, 0, n, widx(lg, sat(NewMnemonic_ws, j)) == digit(V(NewMnemonic_ent), n-1-j))
+//@   assert at after call NewMnemonic#1: value: acc(NewMnemonic_ws, lg, n, n) == V(NewMnemonic_ent)
 
 //@ func verifLossless
 //@   requires validLen(len(e)) && supported(lg)
